@@ -279,6 +279,18 @@ def oracle(p):
                 except Exception as e:  # noqa
                     fail(f"C14:cubic_bspline{D}d:raises", f"cubic_bspline{D}d(stride={st_}, derivative={d}): {type(e).__name__}: {str(e)[:100]}", stride=st_, d=d)
 
+    for st_ in ([2], [3, 2], [1, 2, 3], [2, 2], [4, 1, 2]):
+        for d in (0, 2):
+            bump("kernel-dispatcher")
+            try:
+                k = KER.cubic_bspline(st_, derivative=d)
+                ref = {1: KER.cubic_bspline1d, 2: KER.cubic_bspline2d, 3: KER.cubic_bspline3d}[len(st_)](st_, derivative=d)
+                k2 = KER.cubic_bspline(*st_, derivative=d)
+                if tuple(k.shape) != tuple(ref.shape) or float((k - ref).abs().max()) > 0 or float((k2 - ref).abs().max()) > 0:
+                    fail("C14:cubic_bspline:dispatcher", f"cubic_bspline({st_}, derivative={d}) differs from cubic_bspline{len(st_)}d", stride=st_, d=d)
+            except Exception as e:  # noqa
+                fail("C14:cubic_bspline:dispatcher:raises", f"cubic_bspline({st_}, derivative={d}): {type(e).__name__}: {str(e)[:100]}", stride=st_, d=d)
+
     # 3. control grid size: coverage, tightness, agreement of call forms -- exhaustive on m <= 80, s <= 16
     for m in range(1, 81):
         for s in range(1, 17):
